@@ -217,6 +217,15 @@ def run(tier):
         ("500 valid schema body", {"kind": "reply", "status": 500, "body": schemas["small"][1].encode()}),
         ("503 text body", {"kind": "reply", "status": 503, "body": b"unavailable", "ctype": "text/plain"}),
         ("301 without location", {"kind": "reply", "status": 301, "body": b""}),
+    ] + [
+        # every status class once more with a body that IS a valid schema: only 2xx may write it (redirects the client
+        # cannot follow - no Location -, not-modified, unusual 4xx / 5xx codes and the edges of each range)
+        ("%d valid schema body" % st, {"kind": "reply", "status": st, "body": schemas["small"][1].encode()})
+        for st in (300, 302, 303, 304, 305, 307, 308, 399, 402, 418, 451, 499, 501, 502, 599)
+    ] + [
+        ("%d small schema" % st, {"kind": "reply", "status": st, "body": schemas["small"][1].encode(), "schema": "small"})
+        for st in (202, 203, 299)
+    ] + [
         ("connection refused", {"kind": "refused"}),
         ("closed before reply", {"kind": "close_before_reply"}),
         ("garbage instead of http", {"kind": "reply", "status": 0, "raw": b"\x00\x01garbage\r\n\r\n", "body": b""}),
